@@ -7,6 +7,7 @@ import (
 	"fmt"
 	"go/token"
 	"go/types"
+	"strings"
 
 	"golang.org/x/tools/go/ssa"
 )
@@ -132,6 +133,9 @@ func (th *Thread) schedPoint(desc string) {
 		}
 	}
 	if live <= 1 {
+		return
+	}
+	if len(m.schedOnly) > 0 && !th.inSchedScope() {
 		return
 	}
 	th.waitDesc = desc
@@ -500,4 +504,27 @@ func (m *Machine) reportRace(th *Thread, kind, other string) {
 	m.raceReported = true
 	label := "data race"
 	m.reportViolation("race", label, nil, fmt.Sprintf("%s at %s conflicts with access at %s", kind, th.fr.where(), other))
+}
+
+// inSchedScope: with verifrt.ExploreOnly(prefixes...) a synchronisation operation is a
+// preemption point only if the innermost function of the module under test (or of the
+// harness) on the call stack belongs to a package whose path ends with one of the suffixes.
+func (th *Thread) inSchedScope() bool {
+	m := th.m
+	for f := th.fr; f != nil; f = f.caller {
+		if f.fn == nil || f.fn.Pkg == nil {
+			continue
+		}
+		path := f.fn.Pkg.Pkg.Path()
+		if !strings.HasPrefix(path, m.env.modulePath) {
+			continue
+		}
+		for _, suf := range m.schedOnly {
+			if strings.HasSuffix(path, suf) {
+				return true
+			}
+		}
+		return false
+	}
+	return true
 }
